@@ -16,10 +16,26 @@ CLAIMED = {
         text="Seeded routing scenarios (target lists with duplicates and IPv6, every filter/strategy outcome incl. errors, latencies up to 40 s, client locales against random tables through the real FixedLocalizationAdapter); oracle: pipeline wiring equalities from the call log, exactly one final Transfer naming the chosen address or one localized Disconnect, nothing after it.",
         note="Locale tables lacking the applicable key are don't-care; text components compared as values.",
         tech="deterministic simulation; wiring equalities + independent locale fallback"),
+    "C06": dict(cat="exploration", ref="DESIGN.md 4 (C06)",
+        text="Seeded scripted serverbound sequences (legal script with one deviation: close/reset, duplicate, skipped packet, unknown next-state, dishonest Encryption Response, any packet id of any phase) run against the real Connection; the observed clientbound kind sequence must equal the output of a reference automaton written from the property text; status body equals the service answer as a JSON value, Pong echoes the payload, no routing call before Login Acknowledged and Client Information.",
+        note="Unknown packets inside the configuration phase and unclassifiable bodies under the expected id are don't-care from that point (prefix compared).",
+        tech="deterministic simulation; refinement against a reference protocol automaton"),
+    "C07": dict(cat="exploration", ref="DESIGN.md 4 (C07)",
+        text="Seeded schedules under virtual time (service latencies 0-100 s incl. exactly 16/32 s, late Login Acknowledged / Client Information, per-keep-alive echo policy: prompt, delayed below/above the period, never, wrong id, duplicate, unsolicited) with tie-free offsets; ex-post timing oracle on the server's writes: a tick event at least every 16 s, timeout iff the previous Keep Alive was not echoed strictly before, otherwise the correct final packet at the instant the last service completes.",
+        note="Exact ties with a tick are excluded by construction; transport instantaneous here (C08 owns segmentation).",
+        tech="deterministic simulation under paused clock; timing invariants and bounded liveness on virtual timestamps"),
+    "C08": dict(cat="fault_enumeration", ref="DESIGN.md 4 (C08)",
+        text="Differential: each generated scenario is executed unsegmented (reference) and under a transport fault plan (variant): half of the runs enumerate a cut at (frame, byte offset) by run index with a gate from {spurious Pending, 1 ms, seconds, just after the next keep-alive tick, just after the next service completion}, the rest use multi-cut / one-byte-at-a-time plans and write-acceptance plans (1-byte and short prefixes, Pending for a duration, Pending until a service completes). Masked clientbound packets, service call log and result class must be identical; frames must arrive complete; bounded completion after the last event.",
+        note="A variant is judged only if every keep-alive echo was still available in time (measured from the pipe, not assumed); masked: verify token, session/trace id, cookie second, keep-alives.",
+        tech="deterministic simulation; differential trace equality under enumerated segmentation and write-acceptance faults"),
     "C10": dict(cat="exploration", ref="DESIGN.md 4 (C10)",
         text="Two-connection histories (authenticate + route, then present what was stored after a wall-clock gap around the expiry boundary or a backwards step) with secrets of any length, expiry up to 2^64-1, IPv4/IPv6, port changes, session cookie presented or not; oracle: independent HMAC over the issued cookie, body completeness against connection facts and the simulated clock, acceptance and same identity on the second connection, session-cookie rules.",
         note="Trusts the oracle's HMAC/JSON check; gap beyond expiry is left to C02.",
         tech="deterministic simulation; two-connection history check with simulated wall clock"),
+    "C04": dict(cat="fault_enumeration", ref="DESIGN.md 4 (C04)",
+        text="Four honest transcripts with exactly one mutation enumerated by run index over every frame and byte offset (outer length boundary values with the prefix delivered alone, truncation at every offset + EOF/reset, every offset replaced by hostile VarInts / bytes / invalid UTF-8 with the outer length repaired, junk appended, wire bit flips incl. ciphertext, 12 Encryption Response variants), several maximum frame sizes, a third under segmentation. Observed: panic hook, counting allocator (largest single request while the handler is polled), virtual time from EOF delivery to return, reads after EOF.",
+        note="Samples random bytes for junk/flip positions; allocation bound max(64 KiB, 8 x max frame) is the check's reading of 'out of proportion'.",
+        tech="deterministic simulation; enumerated frame mutations with panic/allocation/termination monitors"),
     "C05": dict(cat="fault_enumeration", ref="DESIGN.md 4 (C05)",
         text="Seeded search over poll-level I/O schedules against the real CipherStream (Pending, prefix acceptance, retry with another buffer, reads down to 1 byte, pre-filled ReadBuf, switch at any operation boundary) plus whole logins through the real Connection under write faults; oracle is an independent CFB8 on the raw AES block function. Samples schedules, does not enumerate them all.",
         note="Trusts the oracle's 25-line CFB8 and the aes crate's block function; transport is the scripted stub.",
